@@ -210,7 +210,13 @@ func (si *structInfo) fieldIndex(name string) int {
 	return -1
 }
 
-func (si *structInfo) sel(i int) string { return si.Sort + "." + si.Fields[i].Name() }
+func (si *structInfo) sel(i int) string {
+	if si.Fields[i].Name() == "_" {
+		// blank fields (padding, noCopy markers in library structs): selectors must be distinct
+		return fmt.Sprintf("%s._blank%d", si.Sort, i)
+	}
+	return si.Sort + "." + si.Fields[i].Name()
+}
 func (si *structInfo) ctor() string     { return "mk." + si.Sort }
 
 // tagOf returns the type tag (a positive Int) of a concrete Go type.
@@ -702,6 +708,31 @@ func (U *Universe) emitDeclsWith(bundleDecls string) string {
 		b.WriteString("))\n")
 	}
 	b.WriteString(bundleDecls)
+	// layout-independent struct helpers for the spec files: the zero value and
+	// one functional update per field, generated from the struct as it is in
+	// /repo today (a spec that spells out mk.S with all fields breaks when a
+	// field is added; one written with zero.S / with.S.f does not)
+	for _, n := range so {
+		si := U.structs[n]
+		if si == nil || len(si.Fields) == 0 {
+			continue
+		}
+		fmt.Fprintf(&b, "(define-fun zero.%s () %s %s)\n", n, n, U.zero(n))
+		for i := range si.Fields {
+			if si.Fields[i].Name() == "_" {
+				continue
+			}
+			var args []string
+			for j := range si.Fields {
+				if j == i {
+					args = append(args, "v")
+				} else {
+					args = append(args, fmt.Sprintf("(%s o)", si.sel(j)))
+				}
+			}
+			fmt.Fprintf(&b, "(define-fun with.%s ((o %s) (v %s)) %s (%s %s))\n", si.sel(i), n, si.FSorts[i], n, si.ctor(), strings.Join(args, " "))
+		}
+	}
 	for _, c := range spec {
 		b.WriteString(c.String())
 		b.WriteString("\n")
